@@ -66,9 +66,9 @@ func (ctx *Context) FindRedirects() {
 			ctx.Fatalf("failed to parse %s: %v", file, err)
 		}
 
-		cmap := ast.NewCommentMap(fset, f, f.Comments)
-		cmap.Filter(f)
-		for node := range cmap {
+		// Visit the declarations in source order, so that
+		// the redirect table is the same on every build.
+		for _, node := range f.Decls {
 			decl, ok := node.(*ast.FuncDecl)
 			if !ok || decl.Doc == nil {
 				continue
